@@ -105,7 +105,17 @@ fn big_bigint(r: &Recipe) -> Case {
 
 pub fn case_of(r: &Recipe, lim: Limits) -> Case {
     let fmt = if r.sel[7] & 1 == 0 { Fmt::F64 } else { Fmt::F32 };
-    match pick_w(r.sel[0], &[28, 14, 14, 10, 10, 10, 10, 2, 2]) {
+    match pick_w(r.sel[0], &[25, 14, 13, 10, 10, 10, 10, 2, 2, 1, 1, 1, 2]) {
+        9 => gen::g_p(fmt, r),
+        10 => gen::g_r(fmt, r, lim),
+        11 => {
+            if fmt == Fmt::F64 {
+                gen::g_s(r)
+            } else {
+                gen::g_t(fmt, r)
+            }
+        }
+        12 => gen::g_t(fmt, r),
         0 => {
             // G-A with the long-length and extreme-exponent components turned up
             let mut r2 = r.clone();
